@@ -335,6 +335,17 @@ class ExprMixin:
         return z3.Not(lt(b.t, a.t))
       if isinstance(op, ast.GtE):
         return z3.Not(lt(a.t, b.t))
+    if isinstance(a, V) and isinstance(b, V) and isinstance(a.sort, S.SetOf) and a.sort is b.sort:
+      x = a.sort.elem.fresh('x')
+      sub = lambda p, q: z3.ForAll([x], z3.Implies(z3.Select(p, x), z3.Select(q, x)))   # p <= q
+      if isinstance(op, ast.GtE):
+        return sub(b.t, a.t)
+      if isinstance(op, ast.LtE):
+        return sub(a.t, b.t)
+      if isinstance(op, ast.Gt):
+        return z3.And(sub(b.t, a.t), z3.Not(sub(a.t, b.t)))
+      if isinstance(op, ast.Lt):
+        return z3.And(sub(a.t, b.t), z3.Not(sub(b.t, a.t)))
     ta, tb = self._tuple_items(a), self._tuple_items(b)
     if ta is not None and tb is not None:
       # lexicographic order on tuples of ints of equal length
